@@ -59,3 +59,29 @@ class RealContext_round_at(Contract):
     def raises(self, x, n, exact):
         # there is no rounding position in the real context
         return {'RuntimeError': True}
+
+
+class fixed__fixed_to_mpb_fixed(Contract):
+    target = 'fpy2.number.context.fixed:_fixed_to_mpb_fixed'
+    params = {'signed': 'bool', 'scale': 'int', 'nbits': 'int'}
+    returns = 'tuple[RealFloat, RealFloat]'
+    properties = ['C01']
+
+    def pre(self, signed, scale, nbits):
+        # FixedContext.__init__ / FixedFormat.__init__ reject smaller widths before calling
+        return {'width': nbits >= 1 and (not signed or nbits >= 2)}
+
+    def post(self, signed, scale, nbits, result):
+        pos, neg = result
+        return {
+            # two's complement: [-2^(nbits-1), 2^(nbits-1) - 1] * 2^scale; unsigned: [0, 2^nbits - 1] * 2^scale
+            'pos_sign': not pos._s,
+            'pos_exp': pos._exp == scale,
+            'pos_c': pos._c == (pow2(nbits - 1) - 1 if signed else pow2(nbits) - 1),
+            'neg_signed': implies(signed, neg._s and neg._exp == scale and neg._c == pow2(nbits - 1)),
+            'neg_unsigned': implies(not signed, neg._c == 0),
+            'flags': pos._flags._flags == 0 and neg._flags._flags == 0,
+        }
+
+    def raises(self, signed, scale, nbits):
+        return {}
